@@ -122,13 +122,58 @@ def respell(sql: str, mode: str) -> str:
     return "".join(out)
 
 
+# interference run: between the statements of a behaviour, unrelated statements are executed on a sibling cursor of the
+# same connection.  They are not events of the trace (stuttering steps of the specification): the recorded trace must
+# still be a behaviour of the specification.  Catches state that leaks between cursors / statements of a connection
+# (statement caches keyed too coarsely, residue of a failed statement, "last statement" fields kept on the connection).
+_NOISE = {"rng": None, "busy": False, "stmts": []}
+NOISE_DEFAULT = [
+    "select 1",
+    "select 'vt' as a, 2 as b union all select 'vu', 3",
+    "select * from vt_no_such_table_zz",          # fails (no such table, or no current database)
+    "select vt_no_such_function_zz(1)",           # fails in the engine
+    "selec vt syntax error",                      # fails in the parser
+    "show schemas",
+    "describe table vt_no_such_table_zz",         # fails
+]
+
+
+def _install_noise():
+    import fakesnow.cursor as fc
+
+    orig = fc.FakeSnowflakeCursor.execute
+
+    def execute(self, command, *a, **kw):
+        st = _NOISE
+        if st["rng"] is not None and not st["busy"] and st["rng"].random() < 0.6:
+            conn = getattr(self, "_conn", None) or getattr(self, "connection", None)
+            if conn is not None:
+                st["busy"] = True
+                try:
+                    for _ in range(st["rng"].choice((1, 1, 2))):
+                        try:
+                            sib = conn.cursor()
+                            sib.execute(st["rng"].choice(st["stmts"]))
+                            sib.fetchall()
+                        except Exception:
+                            pass
+                finally:
+                    st["busy"] = False
+        return orig(self, command, *a, **kw)
+
+    fc.FakeSnowflakeCursor.execute = execute
+
+
 def _worker_init(repo: str, respell_mode: str | None = None):
     import logging
 
     logging.getLogger("sqlglot").setLevel(logging.ERROR)
     sys.path.insert(0, repo)
     os.environ.setdefault("PYTHONHASHSEED", "0")
-    if respell_mode:
+    if respell_mode == "noise":
+        _install_noise()
+        _NOISE["on"] = True
+    elif respell_mode:
         # C02's metamorphic re-run: every statement reaches fakesnow in another letter case
         import fakesnow.cursor as fc
 
@@ -150,11 +195,46 @@ def _drive_chunk(args):
     out = []
     for tid, ops in chunk:
         try:
+            if _NOISE.get("on"):
+                _NOISE["rng"] = random.Random(f"{seed}-{tid}-noise")
+                _NOISE["stmts"] = list(getattr(prop, "noise", None) or NOISE_DEFAULT)
             ev = prop.drive(ops, random.Random(f"{seed}-{tid}"))
             out.append({"tid": tid, "ev": ev})
         except Exception:  # a driver bug is machinery failure, never a verdict
             out.append({"tid": tid, "error": traceback.format_exc()})
     return out
+
+
+_SAME = object()
+
+
+def _corrupt(v, rng: random.Random):
+    """A value of the same shape and types as v that differs in one leaf; _SAME when there is nothing to change."""
+    if isinstance(v, bool):
+        return not v
+    if isinstance(v, int):
+        return v + 1
+    if isinstance(v, str):
+        return v + "~" if v else "~"
+    if isinstance(v, list):
+        idx = list(range(len(v)))
+        rng.shuffle(idx)
+        if v and rng.random() < 0.3:
+            return v[:-1]
+        for k in idx:
+            new = _corrupt(v[k], rng)
+            if new is not _SAME:
+                return v[:k] + [new] + v[k + 1 :]
+        return _SAME
+    if isinstance(v, dict):
+        keys = sorted(v)
+        rng.shuffle(keys)
+        for k in keys:
+            new = _corrupt(v[k], rng)
+            if new is not _SAME:
+                return {**v, k: new}
+        return _SAME
+    return _SAME
 
 
 class Prop:
@@ -324,8 +404,8 @@ class Run:
                 self.behaviours[f"pinned-{f['name']}"] = f["history"]
 
     # ---- 3. driving
-    def drive_all(self, respell_mode: str | None = None) -> list[dict]:
-        items = list(self.behaviours.items())
+    def drive_all(self, respell_mode: str | None = None, only: list[str] | None = None) -> list[dict]:
+        items = [(t, o) for t, o in self.behaviours.items() if only is None or t in only]
         random.Random(self.seed).shuffle(items)
         nchunks = max(1, min(len(items), NPROC * 4))
         chunks = [items[k::nchunks] for k in range(nchunks)]
@@ -402,6 +482,8 @@ class Run:
                     "tier": self.tier,
                     "seed": self.seed,
                     "judge": self.prop.judge_module,
+                    "mode": "noise" if viol["tid"].startswith("noise-") else "plain",
+                    "tid": viol["tid"][6:] if viol["tid"].startswith("noise-") else viol["tid"],
                     "ops": [e["op"] for e in t["ev"]],
                     "trace": t["ev"],
                     "failed_at": viol["verdict"]["at"],
@@ -453,9 +535,89 @@ class Run:
             "violations": len(self.violations),
             "notes": self.notes,
         }
-        os.makedirs(os.path.join(VERIF, "evidence"), exist_ok=True)
-        with open(os.path.join(VERIF, "evidence", f"{self.prop.id}.json"), "w") as f:
+        # runs against a scratch worktree (seeded changes) must not overwrite the evidence of /repo itself
+        evdir = os.path.join(VERIF, "evidence") if os.path.realpath(REPO) == "/repo" else os.path.join(tlc.WORK, "evidence_alt")
+        os.makedirs(evdir, exist_ok=True)
+        with open(os.path.join(evdir, f"{self.prop.id}.json"), "w") as f:
             json.dump(ev, f, indent=1, default=str)
+
+    # ---- 6. binding self-test: the judge must notice a corrupted recording
+    def binding_selftest(self, traces: list[dict], n: int = 40):
+        """Corrupt one observed field (or drop one event) in a sample of accepted traces and judge them again.
+
+        This is evidence that the trace specification constrains what was recorded, not only its length.  A corrupted
+        trace may legitimately stay acceptable (a field the specification leaves open, a dropped no-op), so the rates are
+        reported; only a judge that accepts *every* corrupted trace is treated as broken machinery.
+        """
+        rng = random.Random(self.seed * 7919 + 13)
+        cands = [
+            t for t in traces
+            if t["ev"] and self.verdicts.get(t["tid"], {}).get("v") == "ok" and not self.verdicts[t["tid"]]["devs"]
+        ]
+        if not cands:
+            return
+        mutated, kinds = [], {}
+        for t in rng.sample(cands, min(n, len(cands))):
+            ev = json.loads(json.dumps(t["ev"]))
+            if len(ev) >= 3 and rng.random() < 0.25:
+                k = rng.randrange(len(ev) - 1)
+                del ev[k]
+                kind = "dropped_event"
+            else:
+                order = list(range(len(ev)))
+                rng.shuffle(order)
+                kind = None
+                for k in order:
+                    new = _corrupt(ev[k]["obs"], rng)
+                    if new is not _SAME:
+                        ev[k]["obs"] = new
+                        kind = "corrupted_field"
+                        break
+                if kind is None:
+                    continue
+            tid = f"mut-{len(mutated)}"
+            kinds[tid] = kind
+            mutated.append({"tid": tid, "ev": ev})
+        if not mutated:
+            return
+        try:
+            verdicts = self.judge(mutated)
+        except tlc.MachineryError as e:  # a corrupted value the specification cannot even evaluate
+            self.extra_cov["binding_selftest"] = {"error": str(e)[:300]}
+            return
+        res = {"corrupted_field": [0, 0, 0], "dropped_event": [0, 0, 0]}
+        for tid, v in verdicts.items():
+            slot = 0 if v["v"] != "ok" else (1 if v["devs"] else 2)
+            res[kinds[tid]][slot] += 1
+        self.extra_cov["binding_selftest"] = {
+            k: {"mutants": sum(v), "rejected": v[0], "explained_only_by_a_known_deviation": v[1], "still_accepted": v[2]}
+            for k, v in res.items()
+        }
+        log(f"binding self-test: {self.extra_cov['binding_selftest']}")
+        cf = res["corrupted_field"]
+        if sum(cf) >= 5 and cf[0] + cf[1] == 0:
+            raise tlc.MachineryError("binding self-test: the judge accepted every corrupted trace")
+
+    # ---- 7. interference run (see _install_noise)
+    def interference_run(self):
+        n = getattr(self.prop, "noise_sample", 0)
+        if not n:
+            return
+        n = n * 4 if self.tier == "thorough" else n
+        tids = sorted(t for t in self.behaviours if not t.startswith("pinned-"))
+        pick = random.Random(self.seed * 31 + 5).sample(tids, min(n, len(tids)))
+        t0 = time.time()
+        traces = self.drive_all(respell_mode="noise", only=pick)
+        for t in traces:                      # separate identities: the same operations, another execution
+            self.behaviours["noise-" + t["tid"]] = self.behaviours[t["tid"]]
+            t["tid"] = "noise-" + t["tid"]
+        self.settle(traces, self.judge(traces))
+        self.families["interference"] = len(traces)
+        self.extra_cov["interference_run"] = (
+            f"{len(traces)} behaviours driven again with unrelated statements (succeeding and failing) executed on a "
+            "sibling cursor of the same connection before ~60% of the statements; judged by the same specification"
+        )
+        log(f"interference run: {len(traces)} behaviours in {time.time()-t0:.1f}s")
 
     # ---- whole pipeline
     def execute(self) -> int:
@@ -464,6 +626,9 @@ class Run:
         self.add_pinned()
         traces = self.drive_all()
         self.settle(traces, self.judge(traces))
+        if os.environ.get("VERIF_NO_SELFTEST") != "1":
+            self.binding_selftest(traces)
+        self.interference_run()
         self.prop.extra_checks(self.tier, self.seed, self)
         self.evidence(traces)
         return self.report()
@@ -498,8 +663,11 @@ class Run:
     def replay(self, path: str) -> int:
         with open(path) as f:
             rp = json.load(f)
-        self.behaviours = {"replay": rp["ops"]}
-        traces = self.drive_all()
+        # same identity and seed as the recorded run: the driver's and the interference run's random choices are
+        # functions of (seed, tid)
+        self.seed = rp.get("seed", self.seed)
+        self.behaviours = {rp.get("tid", "replay"): rp["ops"]}
+        traces = self.drive_all(respell_mode="noise" if rp.get("mode") == "noise" else None)
         self.settle(traces, self.judge(traces))
         for t in traces:
             for k, e in enumerate(t["ev"], 1):
